@@ -62,6 +62,10 @@ def cases(tier, seed):
         if tab.endswith("_desc") and (r not in (0.5, 0.99) or sc == "stepdown"):
             continue  # the descending-order copy only needs to show that row order does not matter
         out.append({"cls": "single", "table": tab, "p_f": r * p_i, "p_i": p_i, "sched": sc, "tier": tier})
+    # time grids that do not start at 0 (a history whose clock starts at first production): same physics
+    for tab, t0 in itertools.product(["S_zdip", "T_ship_gas"], [1e-3, 5.0]):
+        out.append({"cls": "single", "table": tab, "p_f": 4000.0, "p_i": 8000.0, "sched": "scalar", "tier": tier, "t0": t0})
+    out.append({"cls": "ideal", "table": None, "p_f": 4000.0, "p_i": 8000.0, "sched": "scalar", "tier": tier, "t0": 5.0})
     if tier == "thorough":
         for tab, r in itertools.product(synth, ratios):
             if r * 3000.0 >= 10:
@@ -79,7 +83,7 @@ def evaluate(case):
     rungs = ladder(case["tier"])
     T = 6.0 if cls == "ideal" else T_END
     for nx, nt in rungs:
-        t = sim.time_grid("quadratic", nt, T)
+        t = sim.time_grid("quadratic", nt, T) + case.get("t0", 0.0)
         p_min = tables.table_range(case["table"])[0] if case["table"] else 0.0
         sched = sim.schedule(case["sched"], nt, case["p_f"], case["p_i"], p_min)
         res = sim.make_reservoir(cls, nx, case["p_f"], case["p_i"], case["table"])
